@@ -150,9 +150,14 @@ WRONG_MODELS = [
     "CREATE TABLE models (pymoca_version TEXT, txt_hash TEXT, data BLOB, last_hit TIMESTAMP INTEGER, PRIMARY KEY (txt_hash, pymoca_version))",
     "CREATE TABLE models (txt_hash TEXT, pymoca_version TEXT, data BLOB, hit INTEGER, PRIMARY KEY (txt_hash, pymoca_version))",
     "CREATE TABLE models (foo TEXT)",
+    # right names and key, wrong declared types (sqlite then compares text with integers)
+    "CREATE TABLE models (txt_hash TEXT, pymoca_version TEXT, data BLOB, last_hit TEXT, PRIMARY KEY (txt_hash, pymoca_version))",
+    "CREATE TABLE models (txt_hash TEXT, pymoca_version TEXT, data TEXT, last_hit TIMESTAMP INTEGER, PRIMARY KEY (txt_hash, pymoca_version))",
+    "CREATE TABLE models (txt_hash BLOB, pymoca_version TEXT, data BLOB, last_hit TIMESTAMP INTEGER, PRIMARY KEY (txt_hash, pymoca_version))",
 ]
 WRONG_META = ["CREATE TABLE metadata (foo TEXT)", "CREATE TABLE metadata (key TEXT, value TEXT)",
-              "CREATE TABLE metadata (value TEXT, key TEXT, PRIMARY KEY (key))"]
+              "CREATE TABLE metadata (value TEXT, key TEXT, PRIMARY KEY (key))",
+              "CREATE TABLE metadata (key TEXT, value INTEGER, PRIMARY KEY (key))"]
 EXPECTED_MODELS = [(0, "txt_hash", "TEXT", 0, None, 1), (1, "pymoca_version", "TEXT", 0, None, 2),
                    (2, "data", "BLOB", 0, None, 0), (3, "last_hit", "TIMESTAMP INTEGER", 0, None, 0)]
 EXPECTED_META = [(0, "key", "TEXT", 0, None, 1), (1, "value", "TEXT", 0, None, 0)]
